@@ -282,11 +282,13 @@ def gen_api_aig(rng, shape=None):
     return ",".join(ops), ",".join(sinks), [shape, "in=%d" % nin, "ops=%d" % nops]
 
 
-def gen_raw_aig(rng):
-    """node list pushed directly (not hash-consed): duplicates, constant fanins, And(x,x) allowed"""
+def gen_raw_aig(rng, extra_const=True):
+    """node list pushed directly (not hash-consed): duplicates, constant fanins, And(x,x) allowed.
+    extra_const: also put a second Const node at an index other than 0 (rewrite maps every Const node to
+    CONST0; the AigModule invariant "index 0 is the only Const" is what the other passes rely on)"""
     nin = rng.randint(1, 7)
     nodes = [("c",)] + [("i", 10 + (i if rng.random() < 0.9 else 0)) for i in range(nin)]
-    if rng.random() < 0.1:
+    if extra_const and rng.random() < 0.1:
         nodes.insert(rng.randrange(1, len(nodes) + 1), ("c",))
     nand = rng.randint(1, 30)
     for _ in range(nand):
@@ -395,13 +397,14 @@ def ram_input_nets(g):
 
 
 def gate_sink_nets(g):
-    """sinks in aigify order: output/inout port bits, FF D inputs, RAM consumed nets"""
+    """sinks in aigify order: output/inout port bits, FF D inputs, RAM consumed nets, then FF by FF clock and reset"""
     s = []
     for d, nets in g.ports:
         if d in ("o", "x"):
             s += nets
     s += [ff["d"] for ff in g.ffs]
     s += ram_input_nets(g)
+    s += gate_aux_nets(g)
     return s
 
 
@@ -418,16 +421,23 @@ def gate_aux_nets(g):
 def gate_eval(g, invals, mask):
     """value of every net: nets driven by a cell are computed from the cell (recomputed from `cells`, not from
     the NetDriver table); nets 0/1 are the constants; every other net is a primary input (invals, default 0).
-    Returns (vals dict-like callable, error|None)."""
+    Returns (val function, errors, multi) where multi lists the nets driven by more than one cell; a multiply
+    driven net takes the value of its first driver and `conflict(net)` tells whether its drivers disagree."""
     drv = {}
-    multi = []
     for i, (kind, out, ins) in enumerate(g.cells):
-        if out in drv:
-            multi.append(out)
-        drv[out] = i
+        drv.setdefault(out, []).append(i)
+    multi = sorted(n for n, l in drv.items() if len(l) > 1)
     memo = {0: 0, 1: mask}
     onstack = set()
     err = []
+
+    def cell_value(ci):
+        kind, out, ins = g.cells[ci]
+        ar, fn = CELL_FUN[kind]
+        if len(ins) != ar:
+            err.append("cell %s has %d inputs" % (kind, len(ins)))
+            return 0
+        return fn(mask, *[memo[x] for x in ins]) & mask
 
     def val(net):
         # iterative DFS to stay clear of the recursion limit
@@ -439,7 +449,6 @@ def gate_eval(g, invals, mask):
             if n not in drv:
                 memo[n] = invals.get(n, 0)
                 continue
-            kind, out, ins = g.cells[drv[n]]
             if st == 0:
                 if n in onstack:
                     err.append("combinational cycle through net %d" % n)
@@ -447,21 +456,20 @@ def gate_eval(g, invals, mask):
                     continue
                 onstack.add(n)
                 stack.append((n, 1))
-                for x in ins:
-                    if x not in memo:
-                        if x in onstack and x in drv:
-                            err.append("combinational cycle through net %d" % x)
-                            memo[x] = 0
-                        else:
-                            stack.append((x, 0))
+                for ci in drv[n]:
+                    for x in g.cells[ci][2]:
+                        if x not in memo:
+                            if x in onstack and x in drv:
+                                err.append("combinational cycle through net %d" % x)
+                                memo[x] = 0
+                            else:
+                                stack.append((x, 0))
             else:
                 onstack.discard(n)
-                ar, fn = CELL_FUN[kind]
-                if len(ins) != ar:
-                    err.append("cell %s has %d inputs" % (kind, len(ins)))
-                    memo[n] = 0
-                else:
-                    memo[n] = fn(mask, *[memo[x] for x in ins]) & mask
+                vs = [cell_value(ci) for ci in drv[n]]
+                memo[n] = vs[0]
+                if any(v != vs[0] for v in vs[1:]):
+                    err.append("net %d has %d drivers that compute different functions" % (n, len(vs)))
         return memo[net]
 
     return val, err, multi
